@@ -114,6 +114,10 @@ impl Dir {
         g.wake_writer();
         v
     }
+    /// Copy of everything currently buffered (nothing is consumed).
+    pub fn peek(&self) -> Vec<u8> {
+        self.p.lock().unwrap().buf.iter().copied().collect()
+    }
     pub fn buffered(&self) -> usize {
         self.p.lock().unwrap().buf.len()
     }
